@@ -227,6 +227,28 @@ def oracle(ctx, c, P, which):
     return True
 
 
+def truncation_violation(P0, Pf, thr):
+    """Pf must be trunc(P0): keep |w| >= thr*max|w|, scale kept weights by rowsum/keptsum (when both are non-zero and differ)"""
+    if len(P0) != len(Pf): return "row count %d vs %d" % (len(Pf), len(P0))
+    for i, (r0, rf) in enumerate(zip(P0, Pf)):
+        try:
+            w0 = [(j, float(nums.parse_num(v))) for j, v in r0]; wf = dict((j, float(nums.parse_num(v))) for j, v in rf)
+        except (TypeError, ValueError): continue       # non-finite weights: reported by the other oracles
+        if not w0:
+            if wf: return "row %d: entries %s appear in an empty row" % (i, sorted(wf.items()))
+            continue
+        m = max(abs(v) for _, v in w0) * thr
+        if any(abs(abs(v) - m) <= 1e-9 * max(m, 1e-300) for _, v in w0): continue      # a weight sits on the threshold: rounding decides
+        kept = [(j, v) for j, v in w0 if abs(v) >= m]
+        rs, ks = math.fsum(v for _, v in w0), math.fsum(v for _, v in kept)
+        scale = rs / ks if abs(ks) > 1e-16 and abs(rs - ks) > 1e-16 else 1.0
+        exp = dict((j, v * scale) for j, v in kept)
+        if set(exp) != set(wf): return "row %d keeps columns %s, required %s (untruncated row %s)" % (i, sorted(wf), sorted(exp), w0)
+        for j in exp:
+            if abs(exp[j] - wf[j]) > 1e-9 * max(1.0, abs(exp[j])):
+                return "row %d: weight of column %d is %.12g, required %.12g (row sum %.12g, kept sum %.12g)" % (i, j, wf[j], exp[j], rs, ks)
+    return None
+
 def rows_close(a, b, ordered=True):
     if len(a) != len(b): return False, "row counts %d vs %d" % (len(a), len(b))
     for i, (x, y) in enumerate(zip(a, b)):
@@ -301,6 +323,7 @@ def run(ctx):
                 c["Ppar_fine"] = raw
                 c["Ppar"] = [[(rk.get(j, -1 - j), v) for (j, v) in r] for r in raw]
                 c["pdim"] = [[int(x) for x in r] for r in split_ranks(get(ri, "PDIM") or [])]
+                c["Pfil_fine"] = parse_rows_raw([x for x in get(ri, "PFIL") if not x.startswith("@")]) if get(ri, "PFIL") is not None else None
             except Exception as e:
                 c["bad"] = "unreadable implementation output: %s" % e
     if l1lines: cases += level1_cases(ctx, l1lines)
@@ -313,10 +336,34 @@ def run(ctx):
             checks = [(DIST[c["kind"]], c["Pseq"]), (DIST[c["kind"]], c["Ppar"])]
         c["checked"] = bool(checks)
         mlines.append(model_line(c, checks))
+        if c.get("Pfil_fine") is not None and all(nums.is_num_tok(v) and not isinstance(nums.parse_num(v), str) for r in c["Ppar_fine"] for _, v in r):
+            t = [c["cid"] + "t", "trunc", (0.3).hex(), str(len(c["Ppar_fine"]))]
+            for r in c["Ppar_fine"]:
+                t.append(str(len(r)))
+                for (cc, v) in r: t += [str(cc), v]
+            mlines.append(" ".join(t))
     cf = fw.write_cases(ctx, "c12.model", mlines)
     rcm, model, _, errm = fw.run_model(ctx, cf)
     if rcm != 0: ctx.signal("K", "modeldriver", "model driver exited with %s: %s" % (rcm, errm[-400:]))
     for c in cases: judge(ctx, c, model.get(c["cid"]))
+    # K: the extracted truncation (filter_interp) applied to the implementation's untruncated rows
+    for c in cases:
+        if c.get("bad") or c.get("Pfil_fine") is None: continue
+        rm = model.get(c["cid"] + "t")
+        tm = get(rm, "TRUNC") if rm else None
+        if tm is None:
+            if rm is not None or not any(isinstance(nums.parse_num(v), str) for r in c["Ppar_fine"] for _, v in r):
+                ctx.signal("K", "interp:extended:truncation:model", "model produced no result: %s" % (rm,), case=c["line"])
+            continue
+        mrows = parse_rows_raw(tm[1:]); ctx.compared += 1
+        for i, (r0, rf, rmod) in enumerate(zip(c["Ppar_fine"], c["Pfil_fine"], mrows)):
+            w0 = [abs(float(nums.parse_num(v))) for _, v in r0]
+            m = max(w0 + [0.0]) * 0.3
+            if any(abs(a - m) <= 1e-9 * max(m, 1e-300) for a in w0): continue        # a weight on the threshold: rounding decides
+            eq, why = rows_close([rf], [rmod], ordered=False)
+            if not eq:
+                ctx.signal("K", "interp:extended:truncation", "row %d: model and implementation differ: %s" % (i, why), case=c["line"]); break
+
 
 
 def judge(ctx, c, rm):
@@ -351,6 +398,12 @@ def judge(ctx, c, rm):
             ctx.signal("O", sig + ":dims", "distributed operator reports (global rows, global cols, local cols) %s for %d points, %d coarse points"
                        % (c["pdim"], c["n"], ncoarse), case=c["line"])
         if any(s_ == -2 for s_ in c["states"]): ctx.count("states_with_NoNeighbors")
+    # truncation (filter_interp, threshold 0.3 = the solver default) of the distributed extended operator: every row is the
+    # row of the untruncated operator restricted to |w| >= 0.3 max|w| and rescaled to the same row sum
+    if c.get("Pfil_fine") is not None:
+        ctx.count("truncated_operators_checked")
+        bad = truncation_violation(c["Ppar_fine"], c["Pfil_fine"], 0.3)
+        if bad: ctx.signal("O", sig + ":truncation", "truncated distributed operator (threshold 0.3): " + bad, case=c["line"])
     eq, why = rows_close(c["Pseq"], c["Ppar"], ordered=False) if mm else (True, "")
     if not eq:
         cause = ""
